@@ -17,6 +17,8 @@ import json
 from .. import msgs
 from ..hdriver import SUBJ_KEY, HState, _emitter, _parked
 from ..refmodel import linear
+from ..refmodel import sets as S_
+from ..refmodel.linear import _parse_set as _pset
 from ..refmodel.store import norm_flags
 from ..respparse import fetch_items
 from ..runner import Failure, pmap, seeded_order
@@ -363,9 +365,43 @@ class SRun:
         for name, mb in model0.mboxes.items():
             for m in mb.msgs:
                 uid2cid[(name, m.uid)] = m.cid
+        uid2cid_final = {}
         for name, rec in obs.items():
             for m in rec.get("msgs", []) if rec.get("exists") else []:
                 uid2cid.setdefault((name, m["uid"]), str(m["cid"]))
+                uid2cid_final[(name, m["uid"])] = str(m["cid"])
+        # COPYUID / APPENDUID name the messages actually created: the destination UID must hold the source's content
+        for sn in cmds:
+            s = w.sessions[sn]
+            for i, ev in enumerate(cmds[sn]):
+                if ev["op"] not in ("copy", "move"):
+                    continue
+                tg = tags.get((sn, i))
+                codes = []
+                r = s.tagged(tg) if tg else None
+                if r is not None and r.code:
+                    codes.append([str(c) for c in r.code])
+                for x in s.responses:
+                    if x.kind == "untagged" and x.typ == "OK" and x.code and str(x.code[0]).upper() == "COPYUID":
+                        codes.append([str(c) for c in x.code])
+                sel0 = model0.session(sn).selected
+                dst = "INBOX" if ev["dst"].upper() == "INBOX" else ev["dst"]
+                for code in codes:
+                    if len(code) != 4 or code[0].upper() != "COPYUID":
+                        continue
+                    try:
+                        src = sorted(S_.denote_uid(_pset(code[2]), list(range(1, 10000))))
+                        dsts = sorted(S_.denote_uid(_pset(code[3]), list(range(1, 10000))))
+                    except Exception:
+                        continue
+                    if len(src) != len(dsts):
+                        self.fail("C02.copyuid-shape", {"op": ev["op"]}, None, code)
+                        continue
+                    for su, du in zip(src, dsts):
+                        want = uid2cid.get((sel0, su))
+                        got = uid2cid_final.get((dst, du))
+                        if want is not None and got is not None and want != got:
+                            self.fail("C02.copyuid-names-other-message", {"op": ev["op"]}, {"src_uid": su, "cid": want}, {"dst_uid": du, "cid": got})
         for key, val in list(results.items()):
             if val[0] == "FETCHED":
                 sn = key[0]
@@ -400,7 +436,21 @@ def judge(scn, sig_obs, model0, env_fired=()):
         cmds["~"] = [dict(e, op="env_" + e["op"]) for e in env_fired]
     results, final_lists = sig_obs
     allowed = linear.outcomes(model0, cmds)
-    fin_obs = tuple(sorted(final_lists.items()))
+    # a delivery agent is not synchronised with the server: a message it drops into the *destination* of a
+    # COPY / MOVE / APPEND that is writing there may land between two of the messages being added
+    loose = set()
+    for e in env_fired:
+        tgt = "INBOX" if e.get("m", "").upper() == "INBOX" else e.get("m")
+        for evs in scn["concurrent"].values():
+            for ev in evs:
+                d = ev.get("dst") if ev["op"] in ("copy", "move") else (ev.get("m") if ev["op"] == "append" else None)
+                if d is not None and ("INBOX" if d.upper() == "INBOX" else d) == tgt:
+                    loose.add(tgt)
+
+    def _norm(items):
+        return tuple(sorted((n, tuple(sorted(lst)) if n in loose else tuple(lst)) for n, lst in items))
+
+    fin_obs = _norm(final_lists.items())
     # search results are positions/uids: compare as counts of hits mapped by the model -> use cids when uid
     for res_items, fin in allowed:
         m = normalise_model_sig(res_items, cmds)
@@ -429,7 +479,7 @@ def judge(scn, sig_obs, model0, env_fired=()):
                 break
         if not ok:
             continue
-        fin_m = tuple(sorted((n, lst) for n, lst in fin if n in final_lists))
+        fin_m = _norm((n, lst) for n, lst in fin if n in final_lists)
         if fin_m == fin_obs:
             return True, len(allowed)
     return False, len(allowed)
